@@ -766,7 +766,8 @@ theorem MInv.goodAll {srcNode : Node} {S T : List Name} {d : Nat} {ops : List Op
 
 /-! ## The set-up of the fresh-destination copy -/
 
-theorem fresh_setup (fs : Fs) (c : Cfg) (hd : c.dereference = false) (hn : c.noClobber = false)
+/-- whatever `noClobber` is: every target of the walk is absent, so the no-clobber probe never fires -/
+theorem fresh_setup' (fs : Fs) (c : Cfg) (hd : c.dereference = false)
     (src tb : RPath) (srcNode : Node) (fuel : Nat)
     (hsrc : PlainTarget fs src) (hsn : fs.root.getAt src.names = some srcNode)
     (hcop : srcNode.Copyable fuel)
@@ -785,7 +786,25 @@ theorem fresh_setup (fs : Fs) (c : Cfg) (hd : c.dereference = false) (hn : c.noC
     cases srcNode with
     | link t => exact absurd hsn (hsrc.2.2.2 src.names (List.prefix_refl _) t)
     | _ => rfl
-  have hshape := walk_shape fs c hd hn src.names tb.names fuel srcNode hcop [] []
+  have habsent : ∀ rel, fs.lexists (relJoin (plainPath tb.names) rel) = false := by
+    intro rel
+    rw [relJoin_plain]
+    apply lexists_false_of_absent _ _ _ (getAt_append_none _ _ _ habs)
+    intro p hp hpne tg hgl
+    by_cases hT : tb.names <+: p
+    · obtain ⟨s', hs'⟩ := hT
+      rw [← hs', getAt_append_none _ _ _ habs] at hgl
+      cases hgl
+    · have hpT : p <+: tb.names := by
+        rcases List.prefix_or_prefix_of_prefix hp (List.prefix_append tb.names rel) with h1 | h1
+        · exact h1
+        · exact absurd h1 hT
+      have hpne' : p ≠ tb.names := fun e => hT (e ▸ List.prefix_refl _)
+      obtain ⟨es, hes⟩ := hpar
+      obtain ⟨es', hes'⟩ := getAt_prefix_dir hes (prefix_dropLast_of_ne hpT hpne')
+      rw [hes'] at hgl
+      cases hgl
+  have hshape := walk_shape fs c hd src.names tb.names (.inr habsent) fuel srcNode hcop [] []
     (by simpa using hsn) (fun h => by rw [hnl] at h; cases h) (by simp only [List.length_nil]; omega)
   rw [← hsrcE, ← htbE] at hshape
   simp only [List.append_nil] at hshape
@@ -796,5 +815,20 @@ theorem fresh_setup (fs : Fs) (c : Cfg) (hd : c.dereference = false) (hn : c.noC
     have := todoOK_opsOf fuel srcNode hcop src.names tb.names (DirsOf fs) [] hpar (fun _ _ => trivial)
     rwa [List.append_nil] at this
   exact ⟨hshape, hspec, hnd, MInv.init hspec fs hsn hpar habs htodo hnd⟩
+
+theorem fresh_setup (fs : Fs) (c : Cfg) (hd : c.dereference = false) (_ : c.noClobber = false)
+    (src tb : RPath) (srcNode : Node) (fuel : Nat)
+    (hsrc : PlainTarget fs src) (hsn : fs.root.getAt src.names = some srcNode)
+    (hcop : srcNode.Copyable fuel)
+    (htb : PlainTarget fs tb) (hne : tb.names ≠ []) (habs : fs.root.getAt tb.names = none)
+    (hpar : ∃ es, fs.root.getAt tb.names.dropLast = some (.dir es))
+    (hun1 : ¬ src.names <+: tb.names) (hun2 : ¬ tb.names <+: src.names)
+    (hlen : src.names.length + fuel < 200 ∧ tb.names.length + fuel < 200) :
+    walkEntry fs c none src tb (fuel + 1) [] [] = opsOf srcNode src.names tb.names ∧
+    OpsSpec srcNode src.names tb.names fuel (opsOf srcNode src.names tb.names) ∧
+    (opsOf srcNode src.names tb.names).Nodup ∧
+    MInv srcNode src.names tb.names (opsOf srcNode src.names tb.names)
+      (L0.init fs (opsOf srcNode src.names tb.names)) :=
+  fresh_setup' fs c hd src tb srcNode fuel hsrc hsn hcop htb hne habs hpar hun1 hun2 hlen
 
 end Xcp
